@@ -241,6 +241,9 @@ def explore(funcs, index, enums):
                     bad.append("%s (witness %s)" % (what, s.model()))
             kinds = [l.ty for l in lims]
             sysl = [l for l in lims if l.ty == "MaxCharsCommandSizeLimiter" and isinstance(l.fields[1], int) and l.fields[1] == SYSTEM_BUDGET]
+            # the order in which the limiters were installed (c04_batching builds its chain in this order: the first limiter that refuses decides between "flush" and the -x abort)
+            order = tuple({"MaxArgsCommandSizeLimiter": "n", "MaxLinesCommandSizeLimiter": "L"}.get(l.ty, "sys" if l in sysl else "s") for l in lims)
+            res.setdefault("orders", {}).setdefault(",".join(sorted(order)), set()).add(order)
             if len(sysl) != 1:
                 bad.append("the system command-line limit is installed %d times (limiters %r)" % (len(sysl), kinds))
             user_s = [l for l in lims if l.ty == "MaxCharsCommandSizeLimiter" and l not in sysl]
